@@ -1,6 +1,1535 @@
-pub fn gen(_seed: u64, _thorough: bool) -> Vec<String> {
-    vec![]
+//! C12: uncompressed encoding is exact where the format can hold the input, else nearest.
+//!
+//! Case lines (see notes/C12.md):
+//!   `int <fmt> <bits:8|16> <fam:g|a|rgb|rgba> <pat:0..3> <w> <h> <start>`
+//!   `f32 <fmt> <fam> <w> <h> <hex,hex,...>`          explicit binary32 bit patterns, tiled over the image
+//!   `sup <fmt>`                                      encoding_support() of the format (flag table tie)
+//!
+//! Result `ok <len> <fnv64 of the encoded bytes, near-tie pixels zeroed>` / `err <kind>`.
+//!
+//! The oracle (independent of the Lean model, exact integer / rational arithmetic, no floats in
+//! any decision) checks on the real `dds::encode` / `dds::decode`:
+//!   * the encoded bytes are identical for every colour format that can carry the same pixel
+//!     values, for tight and padded row pitch, aligned and unaligned buffers, parallel on/off;
+//!   * exactness clause: decode at the input precision returns the input (defaults for channels
+//!     that are not stored);
+//!   * nearest clause: every stored channel, decoded at F32, is within half a quantisation step
+//!     of the clamped input (YUV / sub-sampled: the wider bound stated in notes/C12.md).
+use crate::common::*;
+use dds::*;
+
+// ------------------------------------------------------------------------------------------
+// format table (written from the DXGI format names, not from the encoder code)
+
+#[derive(Clone, Copy, PartialEq, Debug)]
+pub enum K {
+    U(u32),
+    S(u32),
+    H16,
+    F11,
+    F10,
+    F32,
+    Xr,
+    E9,
+    No,
 }
-pub fn run(_line: &str) -> Option<(String, Vec<String>)> {
-    None
+#[derive(Clone, Copy, PartialEq, Debug)]
+pub enum Cls {
+    Plain,
+    Yuv(u32),
+    Rgbg,
+    SubYuv(u32),
+    R1,
+    Bi(u32),
+}
+/// native channels (what a decode to RGBA fills in for channels that are not stored)
+#[derive(Clone, Copy, PartialEq, Debug)]
+pub enum Nat {
+    G,
+    A,
+    Rg0,
+    RgH,
+    Rgb,
+    Rgba,
+}
+pub struct Fm {
+    pub name: &'static str,
+    pub fmt: Format,
+    pub cls: Cls,
+    pub nat: Nat,
+    pub k: [K; 4],
+    /// bytes per pixel (Plain/Yuv), per 2x1 block (Rgbg/SubYuv), per 8x1 block (R1), per plane-1 sample (Bi)
+    pub unit: usize,
+}
+
+use Cls::*;
+use K::*;
+const fn fm(name: &'static str, fmt: Format, cls: Cls, nat: Nat, k: [K; 4], unit: usize) -> Fm {
+    Fm { name, fmt, cls, nat, k, unit }
+}
+pub static FORMATS: [Fm; 45] = [
+    fm("R8G8B8_UNORM", Format::R8G8B8_UNORM, Plain, Nat::Rgb, [U(8), U(8), U(8), No], 3),
+    fm("B8G8R8_UNORM", Format::B8G8R8_UNORM, Plain, Nat::Rgb, [U(8), U(8), U(8), No], 3),
+    fm("R8G8B8A8_UNORM", Format::R8G8B8A8_UNORM, Plain, Nat::Rgba, [U(8), U(8), U(8), U(8)], 4),
+    fm("R8G8B8A8_SNORM", Format::R8G8B8A8_SNORM, Plain, Nat::Rgba, [S(8), S(8), S(8), S(8)], 4),
+    fm("B8G8R8A8_UNORM", Format::B8G8R8A8_UNORM, Plain, Nat::Rgba, [U(8), U(8), U(8), U(8)], 4),
+    fm("B8G8R8X8_UNORM", Format::B8G8R8X8_UNORM, Plain, Nat::Rgb, [U(8), U(8), U(8), No], 4),
+    fm("B5G6R5_UNORM", Format::B5G6R5_UNORM, Plain, Nat::Rgb, [U(5), U(6), U(5), No], 2),
+    fm("B5G5R5A1_UNORM", Format::B5G5R5A1_UNORM, Plain, Nat::Rgba, [U(5), U(5), U(5), U(1)], 2),
+    fm("B4G4R4A4_UNORM", Format::B4G4R4A4_UNORM, Plain, Nat::Rgba, [U(4), U(4), U(4), U(4)], 2),
+    fm("A4B4G4R4_UNORM", Format::A4B4G4R4_UNORM, Plain, Nat::Rgba, [U(4), U(4), U(4), U(4)], 2),
+    fm("R8_SNORM", Format::R8_SNORM, Plain, Nat::G, [S(8), No, No, No], 1),
+    fm("R8_UNORM", Format::R8_UNORM, Plain, Nat::G, [U(8), No, No, No], 1),
+    fm("R8G8_UNORM", Format::R8G8_UNORM, Plain, Nat::Rg0, [U(8), U(8), No, No], 2),
+    fm("R8G8_SNORM", Format::R8G8_SNORM, Plain, Nat::RgH, [S(8), S(8), No, No], 2),
+    fm("A8_UNORM", Format::A8_UNORM, Plain, Nat::A, [No, No, No, U(8)], 1),
+    fm("R16_UNORM", Format::R16_UNORM, Plain, Nat::G, [U(16), No, No, No], 2),
+    fm("R16_SNORM", Format::R16_SNORM, Plain, Nat::G, [S(16), No, No, No], 2),
+    fm("R16G16_UNORM", Format::R16G16_UNORM, Plain, Nat::Rg0, [U(16), U(16), No, No], 4),
+    fm("R16G16_SNORM", Format::R16G16_SNORM, Plain, Nat::RgH, [S(16), S(16), No, No], 4),
+    fm("R16G16B16A16_UNORM", Format::R16G16B16A16_UNORM, Plain, Nat::Rgba, [U(16), U(16), U(16), U(16)], 8),
+    fm("R16G16B16A16_SNORM", Format::R16G16B16A16_SNORM, Plain, Nat::Rgba, [S(16), S(16), S(16), S(16)], 8),
+    fm("R10G10B10A2_UNORM", Format::R10G10B10A2_UNORM, Plain, Nat::Rgba, [U(10), U(10), U(10), U(2)], 4),
+    fm("R11G11B10_FLOAT", Format::R11G11B10_FLOAT, Plain, Nat::Rgb, [F11, F11, F10, No], 4),
+    fm("R9G9B9E5_SHAREDEXP", Format::R9G9B9E5_SHAREDEXP, Plain, Nat::Rgb, [E9, E9, E9, No], 4),
+    fm("R16_FLOAT", Format::R16_FLOAT, Plain, Nat::G, [H16, No, No, No], 2),
+    fm("R16G16_FLOAT", Format::R16G16_FLOAT, Plain, Nat::Rg0, [H16, H16, No, No], 4),
+    fm("R16G16B16A16_FLOAT", Format::R16G16B16A16_FLOAT, Plain, Nat::Rgba, [H16, H16, H16, H16], 8),
+    fm("R32_FLOAT", Format::R32_FLOAT, Plain, Nat::G, [F32, No, No, No], 4),
+    fm("R32G32_FLOAT", Format::R32G32_FLOAT, Plain, Nat::Rg0, [F32, F32, No, No], 8),
+    fm("R32G32B32_FLOAT", Format::R32G32B32_FLOAT, Plain, Nat::Rgb, [F32, F32, F32, No], 12),
+    fm("R32G32B32A32_FLOAT", Format::R32G32B32A32_FLOAT, Plain, Nat::Rgba, [F32, F32, F32, F32], 16),
+    fm("R10G10B10_XR_BIAS_A2_UNORM", Format::R10G10B10_XR_BIAS_A2_UNORM, Plain, Nat::Rgba, [Xr, Xr, Xr, U(2)], 4),
+    fm("AYUV", Format::AYUV, Yuv(8), Nat::Rgba, [No, No, No, U(8)], 4),
+    fm("Y410", Format::Y410, Yuv(10), Nat::Rgba, [No, No, No, U(2)], 4),
+    fm("Y416", Format::Y416, Yuv(16), Nat::Rgba, [No, No, No, U(16)], 8),
+    fm("R1_UNORM", Format::R1_UNORM, R1, Nat::G, [U(1), No, No, No], 1),
+    fm("R8G8_B8G8_UNORM", Format::R8G8_B8G8_UNORM, Rgbg, Nat::Rgb, [U(8), U(8), U(8), No], 4),
+    fm("G8R8_G8B8_UNORM", Format::G8R8_G8B8_UNORM, Rgbg, Nat::Rgb, [U(8), U(8), U(8), No], 4),
+    fm("UYVY", Format::UYVY, SubYuv(8), Nat::Rgb, [No, No, No, No], 4),
+    fm("YUY2", Format::YUY2, SubYuv(8), Nat::Rgb, [No, No, No, No], 4),
+    fm("Y210", Format::Y210, SubYuv(10), Nat::Rgb, [No, No, No, No], 8),
+    fm("Y216", Format::Y216, SubYuv(16), Nat::Rgb, [No, No, No, No], 8),
+    fm("NV12", Format::NV12, Bi(8), Nat::Rgb, [No, No, No, No], 1),
+    fm("P010", Format::P010, Bi(10), Nat::Rgb, [No, No, No, No], 2),
+    fm("P016", Format::P016, Bi(16), Nat::Rgb, [No, No, No, No], 2),
+];
+
+pub fn find(name: &str) -> Option<&'static Fm> {
+    FORMATS.iter().find(|f| f.name == name)
+}
+
+impl Fm {
+    fn is_yuv(&self) -> bool {
+        matches!(self.cls, Yuv(_) | SubYuv(_) | Bi(_))
+    }
+    /// bit depth of the YUV matrix evaluated by the encoder (Y210 is produced from 16-bit codes)
+    fn yuv_bits(&self) -> u32 {
+        match self.cls {
+            Yuv(m) | Bi(m) => m,
+            SubYuv(10) => 16,
+            SubYuv(m) => m,
+            _ => 0,
+        }
+    }
+    fn stored(&self) -> [bool; 4] {
+        if self.is_yuv() {
+            [true, true, true, self.k[3] != No]
+        } else {
+            [self.k[0] != No, self.k[1] != No, self.k[2] != No, self.k[3] != No]
+        }
+    }
+    /// encoded length for w x h
+    fn enc_len(&self, w: usize, h: usize) -> usize {
+        match self.cls {
+            Plain | Yuv(_) => w * h * self.unit,
+            Rgbg | SubYuv(_) => (w + 1) / 2 * h * self.unit,
+            R1 => (w + 7) / 8 * h,
+            Bi(_) => w * h * self.unit + (w / 2) * (h / 2) * 2 * self.unit,
+        }
+    }
+    /// The property's exactness clause applies: every stored channel has at least the input's bit
+    /// depth (YUV, sub-sampled and bi-planar formats fall under the wider-bound clause).
+    fn exact_for(&self, p: Prec) -> bool {
+        if self.cls != Plain {
+            return false;
+        }
+        self.k.iter().all(|k| match (*k, p) {
+            (No, _) => true,
+            (F32, _) => true,
+            (U(b), Prec::U8) => b >= 8,
+            (U(b), Prec::U16) => b >= 16,
+            (S(b), Prec::U8) => b > 8,
+            (S(b), Prec::U16) => b > 16,
+            (H16, Prec::U8) | (E9, Prec::U8) => true,
+            _ => false,
+        })
+    }
+}
+
+#[derive(Clone, Copy, PartialEq, Debug)]
+pub enum Prec {
+    U8,
+    U16,
+    F32,
+}
+#[derive(Clone, Copy, PartialEq, Debug)]
+pub enum Fam {
+    G,
+    A,
+    Rgb,
+    Rgba,
+}
+fn fam_of(s: &str) -> Option<Fam> {
+    Some(match s {
+        "g" => Fam::G,
+        "a" => Fam::A,
+        "rgb" => Fam::Rgb,
+        "rgba" => Fam::Rgba,
+        _ => return None,
+    })
+}
+fn fam_name(f: Fam) -> &'static str {
+    match f {
+        Fam::G => "g",
+        Fam::A => "a",
+        Fam::Rgb => "rgb",
+        Fam::Rgba => "rgba",
+    }
+}
+
+// ------------------------------------------------------------------------------------------
+// exact arithmetic
+
+fn gcd(a: i128, b: i128) -> i128 {
+    let (mut a, mut b) = (a.abs(), b.abs());
+    while b != 0 {
+        let t = a % b;
+        a = b;
+        b = t;
+    }
+    a
+}
+/// exact rational, always reduced, d > 0
+#[derive(Clone, Copy, Debug, PartialEq)]
+pub struct Q {
+    n: i128,
+    d: i128,
+}
+impl Q {
+    pub fn new(n: i128, d: i128) -> Q {
+        assert!(d != 0);
+        let g = gcd(n, d).max(1);
+        let s = if d < 0 { -1 } else { 1 };
+        Q { n: s * n / g, d: s * d / g }
+    }
+    pub fn int(n: i128) -> Q {
+        Q { n, d: 1 }
+    }
+    pub fn add(self, o: Q) -> Q {
+        let g = gcd(self.d, o.d).max(1);
+        let l = self.d / g;
+        let r = o.d / g;
+        Q::new(
+            self.n.checked_mul(r).unwrap().checked_add(o.n.checked_mul(l).unwrap()).unwrap(),
+            l.checked_mul(o.d).unwrap(),
+        )
+    }
+    pub fn neg(self) -> Q {
+        Q { n: -self.n, d: self.d }
+    }
+    pub fn sub(self, o: Q) -> Q {
+        self.add(o.neg())
+    }
+    pub fn mul(self, o: Q) -> Q {
+        let g1 = gcd(self.n, o.d).max(1);
+        let g2 = gcd(o.n, self.d).max(1);
+        Q::new(
+            (self.n / g1).checked_mul(o.n / g2).unwrap(),
+            (self.d / g2).checked_mul(o.d / g1).unwrap(),
+        )
+    }
+    pub fn abs(self) -> Q {
+        Q { n: self.n.abs(), d: self.d }
+    }
+    pub fn le(self, o: Q) -> bool {
+        self.sub(o).n <= 0
+    }
+    pub fn lt(self, o: Q) -> bool {
+        self.sub(o).n < 0
+    }
+    pub fn floor(self) -> i128 {
+        self.n.div_euclid(self.d)
+    }
+    pub fn pow2(e: i32) -> Q {
+        if e >= 0 {
+            Q::int(1i128 << e)
+        } else {
+            Q { n: 1, d: 1i128 << (-e) }
+        }
+    }
+    pub fn show(self) -> String {
+        format!("{}/{}", self.n, self.d)
+    }
+}
+
+/// classification of a binary32 bit pattern
+#[derive(Clone, Copy, Debug, PartialEq)]
+pub enum FC {
+    Nan,
+    PInf,
+    NInf,
+    /// exact value (0 or 2^-40 <= |x| < 2^40)
+    Fin(Q),
+    /// 0 < |x| < 2^-40, sign
+    Tiny(bool),
+    /// 2^40 <= |x| < inf, sign
+    Huge(bool),
+}
+pub fn classify_f32(bits: u32) -> FC {
+    let neg = bits >> 31 != 0;
+    let e = ((bits >> 23) & 0xFF) as i32;
+    let m = (bits & 0x7F_FFFF) as i128;
+    if e == 255 {
+        return if m != 0 {
+            FC::Nan
+        } else if neg {
+            FC::NInf
+        } else {
+            FC::PInf
+        };
+    }
+    let (mant, exp) = if e == 0 { (m, -149) } else { (m | 0x80_0000, e - 150) };
+    if mant == 0 {
+        return FC::Fin(Q::int(0));
+    }
+    // |x| = mant * 2^exp, 2^(exp) <= |x| < 2^(exp+24)
+    let top = 127 - (mant as u128).leading_zeros() as i32 + exp; // floor(log2 |x|)
+    if top < -40 {
+        return FC::Tiny(neg);
+    }
+    if top >= 40 {
+        return FC::Huge(neg);
+    }
+    let q = Q::int(mant).mul(Q::pow2(exp));
+    FC::Fin(if neg { q.neg() } else { q })
+}
+
+/// nearest binary32 (ties to even) of a/b, 0 <= a/b <= 1, computed in integers
+pub fn nearest_f32(a: u128, b: u128) -> u32 {
+    if a == 0 {
+        return 0;
+    }
+    // find e with 2^e <= a/b < 2^(e+1), e <= 0
+    let mut e: i32 = 0;
+    while (a << (-e) as u32) < b {
+        e -= 1;
+    }
+    // a/b = (a*2^-e / b) with quotient in [1,2); mantissa = round(a * 2^(23-e) / b)
+    let sh = (23 - e) as u32;
+    let num = a << sh;
+    let mut m = num / b;
+    let r = num % b;
+    if 2 * r > b || (2 * r == b && m & 1 == 1) {
+        m += 1;
+    }
+    let mut ee = e;
+    if m == 1 << 24 {
+        m >>= 1;
+        ee += 1;
+    }
+    (((ee + 127) as u32) << 23) | ((m as u32) & 0x7F_FFFF)
+}
+
+// ------------------------------------------------------------------------------------------
+// pixel value patterns
+
+/// logical channel value
+#[derive(Clone, Copy, Debug, PartialEq)]
+pub enum V {
+    I(u32, u32),
+    F(u32),
+}
+impl V {
+    fn class(self) -> FC {
+        match self {
+            V::I(v, n) => FC::Fin(Q::new(v as i128, ((1u64 << n) - 1) as i128)),
+            V::F(b) => classify_f32(b),
+        }
+    }
+}
+
+const MULT: [u64; 4] = [1, 7, 0, 13]; // 0 => reversed ramp
+const ADD: [u64; 4] = [0, 3, 0, 5];
+
+/// value of channel `c` for logical pixel index `k` in integer pattern `pat`
+pub fn int_chan(pat: u32, bits: u32, c: usize, k: u64) -> u32 {
+    let r = 1u64 << bits;
+    let base = |k: u64| -> u64 {
+        if c == 2 {
+            (r - 1) - (k % r)
+        } else {
+            (k * MULT[c] + ADD[c]) % r
+        }
+    };
+    (match pat {
+        // per-pixel ramps (every channel takes every value over 2^bits consecutive pixels)
+        0 => base(k),
+        // the same ramp held constant over 2x1 blocks (used with block-constant geometry)
+        1 => base(k / 2),
+        // pairs: r = low byte/word, g = next, b = mixed (R9G9B9E5 / YUV channel interaction)
+        2 => match c {
+            0 => k % r,
+            1 => (k / r) % r,
+            2 => (k / 16 * 5 + 1) % r,
+            _ => (k * 13 + 5) % r,
+        },
+        // even steps: neighbours differ by an even amount (averages of pairs are integers)
+        _ => {
+            let t = base(k);
+            (2 * t + (t >> (bits - 1))) % r
+        }
+    }) as u32
+}
+
+/// logical pixel index of pixel (x,y); block-constant for pattern 1 on 2x2-blocked formats
+fn pix_index(pat: u32, bi: bool, w: usize, x: usize, y: usize, start: u64) -> u64 {
+    if pat == 1 && bi {
+        start + 2 * ((y / 2) * (w / 2) + x / 2) as u64
+    } else {
+        start + (y * w + x) as u64
+    }
+}
+
+// ------------------------------------------------------------------------------------------
+// spec-side near-tie predicate (shared reading with Quant.lean; used only to zero bytes
+// before hashing and to widen the oracle by the stated tolerance)
+
+fn clamp01(c: FC) -> Q {
+    match c {
+        FC::Nan | FC::NInf => Q::int(0),
+        FC::PInf => Q::int(1),
+        FC::Tiny(_) => Q::int(0),
+        FC::Huge(neg) => Q::int(if neg { 0 } else { 1 }),
+        FC::Fin(q) => {
+            if q.n < 0 {
+                Q::int(0)
+            } else if Q::int(1).lt(q) {
+                Q::int(1)
+            } else {
+                q
+            }
+        }
+    }
+}
+fn near_half(s: Q, tol: Q) -> bool {
+    let f = s.sub(Q::int(s.floor()));
+    f.sub(Q::new(1, 2)).abs().lt(tol)
+}
+fn levels(k: K) -> i128 {
+    match k {
+        U(b) => (1i128 << b) - 1,
+        S(b) => (1i128 << b) - 2,
+        _ => 0,
+    }
+}
+/// field-level near-tie test for clamped kinds
+/// tie tolerance in steps: 2^-12, widened to 2^(b-23) for fields of more than 11 bits that are
+/// evaluated in binary32 (`x * 65535.0 + 0.5` carries 8 bits below the unit)
+fn tol_steps(k: K) -> Q {
+    match k {
+        U(b) if b > 11 => Q::pow2(b as i32 - 23),
+        _ => Q::pow2(-12),
+    }
+}
+fn near_tie_field(k: K, c: FC, e9_scale: Option<Q>) -> bool {
+    let tol = tol_steps(k);
+    match k {
+        U(_) | S(_) => near_half(clamp01(c).mul(Q::int(levels(k))), tol),
+        Xr => match c {
+            FC::Fin(q) if Q::int(-384).le(q.mul(Q::int(510))) && q.mul(Q::int(510)).le(Q::int(639)) => near_half(q.mul(Q::int(510)), tol),
+            _ => false,
+        },
+        E9 => match (c, e9_scale) {
+            (FC::Fin(q), Some(sc)) if q.n > 0 => near_half(q.mul(sc), tol),
+            _ => false,
+        },
+        _ => false,
+    }
+}
+/// R9G9B9E5: clamp to [0, 65408]; NaN -> 0
+fn e9_clamp(c: FC) -> Q {
+    match c {
+        FC::Nan | FC::NInf | FC::Tiny(_) => Q::int(0),
+        FC::PInf => Q::int(65408),
+        FC::Huge(neg) => Q::int(if neg { 0 } else { 65408 }),
+        FC::Fin(q) => {
+            if q.n < 0 {
+                Q::int(0)
+            } else if Q::int(65408).lt(q) {
+                Q::int(65408)
+            } else {
+                q
+            }
+        }
+    }
+}
+fn floor_log2(q: Q) -> i32 {
+    // q > 0
+    let mut e = 0i32;
+    while Q::pow2(e + 1).le(q) {
+        e += 1;
+    }
+    while q.lt(Q::pow2(e)) {
+        e -= 1;
+    }
+    e
+}
+/// multiplier 2^(24-exp) of the shared exponent chosen for the maximum channel `mx` (before the
+/// possible bump when the maximum mantissa rounds to 512); None when everything is zero
+fn e9_scale(mx: Q, tol: bool) -> Option<Q> {
+    if mx.n <= 0 {
+        return None;
+    }
+    let e = floor_log2(mx).max(-16);
+    let mut exp = e + 16;
+    let sc = Q::pow2(24 - exp);
+    let t = if tol { Q::pow2(-12) } else { Q::int(0) };
+    if mx.mul(sc).add(Q::new(1, 2)).add(t).floor() == 512 {
+        exp += 1;
+    }
+    Some(Q::pow2(24 - exp))
+}
+
+const YC: [[i128; 3]; 3] = [[256788, 504129, 97906], [-148223, -290993, 439216], [439216, -367788, -71427]];
+/// ideal pre-rounding Y,U,V in code units of an m-bit YUV format, for tame inputs
+fn yuv_ideal(m: u32, rgb: [Q; 3]) -> [Q; 3] {
+    let s = Q::int((1i128 << m) - 1);
+    let off = [16i128 << (m - 8), 128i128 << (m - 8), 128i128 << (m - 8)];
+    let mut out = [Q::int(0); 3];
+    for i in 0..3 {
+        let mut acc = Q::int(0);
+        for j in 0..3 {
+            acc = acc.add(Q::new(YC[i][j], 1_000_000).mul(rgb[j]));
+        }
+        out[i] = acc.mul(s).add(Q::int(off[i]));
+    }
+    out
+}
+/// tame for the YUV matrix: every channel 0 or 2^-40 <= |x| <= 5/4
+fn yuv_tame(c: FC) -> Option<Q> {
+    match c {
+        FC::Fin(q) if q.abs().le(Q::new(5, 4)) => Some(q),
+        _ => None,
+    }
+}
+
+/// per-pixel: does the spec leave the encoded pixel undetermined (near tie / untamed)?
+fn pixel_loose(f: &Fm, px: [V; 4], int_line: bool) -> bool {
+    let cl = [px[0].class(), px[1].class(), px[2].class(), px[3].class()];
+    if f.is_yuv() {
+        let m = f.yuv_bits();
+        let (Some(r), Some(g), Some(b)) = (yuv_tame(cl[0]), yuv_tame(cl[1]), yuv_tame(cl[2])) else {
+            return true;
+        };
+        let tol = Q::pow2(m as i32 - 20);
+        for s in yuv_ideal(m, [r, g, b]) {
+            if near_half(s, tol) {
+                return true;
+            }
+        }
+        if f.k[3] != No && (cl[3] == FC::Nan || near_tie_field(f.k[3], cl[3], None)) {
+            return true;
+        }
+        return false;
+    }
+    let _ = int_line;
+    if f.cls == Rgbg {
+        // R and B are handled at block level
+        return cl[1] == FC::Nan || near_tie_field(U(8), cl[1], None);
+    }
+    let tol = Q::pow2(-12);
+    if f.k[0] == E9 {
+        if cl[..3].contains(&FC::Nan) {
+            return true;
+        }
+        let cs = [e9_clamp(cl[0]), e9_clamp(cl[1]), e9_clamp(cl[2])];
+        let mut mx = cs[0];
+        for x in &cs[1..] {
+            if mx.lt(*x) {
+                mx = *x;
+            }
+        }
+        if mx.n <= 0 {
+            return false;
+        }
+        // the maximum channel at the un-bumped scale decides the exponent
+        let sc0 = Q::pow2(24 - (floor_log2(mx).max(-16) + 16));
+        if near_half(mx.mul(sc0), tol) {
+            return true;
+        }
+        let sc = e9_scale(mx, false).unwrap();
+        return cs.iter().any(|c| c.n > 0 && near_half(c.mul(sc), tol));
+    }
+    for c in 0..4 {
+        match f.k[c] {
+            No | F32 | E9 => {}
+            H16 | F11 | F10 => match cl[c] {
+                FC::Nan => return true,
+                FC::Fin(q) if int_line => {
+                    if near_tie_float(f.k[c], q) {
+                        return true;
+                    }
+                }
+                _ => {}
+            },
+            k => {
+                if cl[c] == FC::Nan || near_tie_field(k, cl[c], None) {
+                    return true;
+                }
+            }
+        }
+    }
+    false
+}
+/// integer input (not a binary32 value) within 2^-12 ulp of the midpoint of two representable values
+fn near_tie_float(k: K, q: Q) -> bool {
+    if q.n <= 0 {
+        return false;
+    }
+    let ulp = half_ulp(k, q).mul(Q::int(2));
+    near_half(q.mul(Q::new(ulp.d, ulp.n)), Q::pow2(-12))
+}
+/// R8G8_B8G8 / G8R8_G8B8: the averaged R and B of a pair
+fn rgbg_pair_loose(a: [V; 4], b: [V; 4]) -> bool {
+    for c in [0usize, 2] {
+        let m = clamp_sum_half(a[c].class(), b[c].class());
+        match m {
+            Some(m) => {
+                if near_half(clamp01(FC::Fin(m)).mul(Q::int(255)), Q::pow2(-12)) {
+                    return true;
+                }
+            }
+            None => return true,
+        }
+    }
+    false
+}
+/// (a+b)/2 for values that are 0 or moderate; None otherwise (spec leaves the pair undetermined)
+fn clamp_sum_half(a: FC, b: FC) -> Option<Q> {
+    match (a, b) {
+        (FC::Fin(x), FC::Fin(y)) => Some(x.add(y).mul(Q::new(1, 2))),
+        _ => None,
+    }
+}
+
+// ------------------------------------------------------------------------------------------
+// building carrier images and running the library
+
+fn fnv(bytes: &[u8]) -> u64 {
+    let mut h: u64 = 0xcbf29ce484222325;
+    for b in bytes {
+        h ^= *b as u64;
+        h = h.wrapping_mul(0x100000001b3);
+    }
+    h
+}
+
+fn carrier_value(v: V, p: Prec) -> Option<[u8; 4]> {
+    // bytes (native endian) of the channel value in precision p; None if p cannot carry it
+    match (v, p) {
+        (V::I(x, 8), Prec::U8) => Some([x as u8, 0, 0, 0]),
+        (V::I(x, 8), Prec::U16) => {
+            let b = ((x * 257) as u16).to_ne_bytes();
+            Some([b[0], b[1], 0, 0])
+        }
+        (V::I(x, 16), Prec::U16) => {
+            let b = (x as u16).to_ne_bytes();
+            Some([b[0], b[1], 0, 0])
+        }
+        (V::I(x, n), Prec::F32) => Some(nearest_f32(x as u128, (1u128 << n) - 1).to_ne_bytes()),
+        (V::F(b), Prec::F32) => Some(b.to_ne_bytes()),
+        _ => None,
+    }
+}
+fn psize(p: Prec) -> usize {
+    match p {
+        Prec::U8 => 1,
+        Prec::U16 => 2,
+        Prec::F32 => 4,
+    }
+}
+fn precision(p: Prec) -> Precision {
+    match p {
+        Prec::U8 => Precision::U8,
+        Prec::U16 => Precision::U16,
+        Prec::F32 => Precision::F32,
+    }
+}
+/// the channel layouts that can carry a pixel family, with the logical channel indices they hold
+fn carriers(f: Fam) -> Vec<(Channels, &'static [usize])> {
+    match f {
+        Fam::G => vec![(Channels::Grayscale, &[0]), (Channels::Rgb, &[0, 1, 2]), (Channels::Rgba, &[0, 1, 2, 3])],
+        Fam::A => vec![(Channels::Alpha, &[3]), (Channels::Rgba, &[0, 1, 2, 3])],
+        Fam::Rgb => vec![(Channels::Rgb, &[0, 1, 2]), (Channels::Rgba, &[0, 1, 2, 3])],
+        Fam::Rgba => vec![(Channels::Rgba, &[0, 1, 2, 3])],
+    }
+}
+
+struct Img {
+    w: usize,
+    h: usize,
+    px: Vec<[V; 4]>,
+}
+
+/// builds the carrier buffer; returns (buffer, offset of first byte, pitch)
+fn build(img: &Img, ch: &[usize], p: Prec, pad: usize, off: usize) -> Option<(Vec<u8>, usize, usize)> {
+    let bpp = ch.len() * psize(p);
+    let pitch = img.w * bpp + pad;
+    let mut buf = vec![0xA5u8; off + pitch * img.h + 8];
+    for y in 0..img.h {
+        for x in 0..img.w {
+            let px = img.px[y * img.w + x];
+            let o = off + y * pitch + x * bpp;
+            for (i, c) in ch.iter().enumerate() {
+                let b = carrier_value(px[*c], p)?;
+                buf[o + i * psize(p)..o + (i + 1) * psize(p)].copy_from_slice(&b[..psize(p)]);
+            }
+        }
+    }
+    Some((buf, off, pitch))
+}
+
+fn err_name(e: &EncodingError) -> String {
+    match e {
+        EncodingError::InvalidSize(..) => "size".into(),
+        EncodingError::UnsupportedFormat(..) => "unsupported".into(),
+        _ => "other".into(),
+    }
+}
+
+fn encode_one(f: &Fm, img: &Img, chs: Channels, ch: &[usize], p: Prec, pad: usize, off: usize, par: bool) -> Option<Result<Vec<u8>, String>> {
+    let (buf, off, pitch) = build(img, ch, p, pad, off)?;
+    let color = ColorFormat::new(chs, precision(p));
+    let size = Size::new(img.w as u32, img.h as u32);
+    let data = &buf[off..];
+    let view = if pad == 0 {
+        ImageView::new(&data[..pitch * img.h], size, color)?
+    } else {
+        ImageView::new_with(data, pitch, size, color)?
+    };
+    let mut out = Vec::new();
+    let mut opt = EncodeOptions::default();
+    opt.dithering = Dithering::None;
+    opt.parallel = par;
+    Some(match encode(&mut out, view, f.fmt, None, &opt) {
+        Ok(()) => Ok(out),
+        Err(e) => Err(err_name(&e)),
+    })
+}
+
+fn decode_rgba(f: &Fm, bytes: &[u8], w: usize, h: usize, p: Prec) -> Result<Vec<u8>, String> {
+    let mut out = vec![0u8; w * h * 4 * psize(p)];
+    let color = ColorFormat::new(Channels::Rgba, precision(p));
+    let view = ImageViewMut::new(&mut out, Size::new(w as u32, h as u32), color).ok_or("view")?;
+    let mut r: &[u8] = bytes;
+    decode(&mut r, view, f.fmt, &DecodeOptions::default()).map_err(|e| format!("{e:?}"))?;
+    if !r.is_empty() {
+        return Err(format!("decode left {} bytes", r.len()));
+    }
+    Ok(out)
+}
+
+// ------------------------------------------------------------------------------------------
+// oracle
+
+/// expected decode (same precision) of logical pixel `px` for native channels `nat`
+fn expect_same(nat: Nat, px: [V; 4], p: Prec) -> [u32; 4] {
+    let one = match p {
+        Prec::U8 => 255,
+        Prec::U16 => 65535,
+        Prec::F32 => 0x3F80_0000,
+    };
+    let half = match p {
+        Prec::U8 => 128,
+        Prec::U16 => 32768,
+        Prec::F32 => 0x3F00_0000,
+    };
+    let raw = |v: V| -> u32 {
+        match (v, p) {
+            (V::I(x, 8), Prec::U8) | (V::I(x, 16), Prec::U16) => x,
+            (V::F(b), Prec::F32) => b,
+            _ => unreachable!(),
+        }
+    };
+    let [r, g, b, a] = [raw(px[0]), raw(px[1]), raw(px[2]), raw(px[3])];
+    match nat {
+        Nat::G => [r, r, r, one],
+        Nat::A => [0, 0, 0, a],
+        Nat::Rg0 => [r, g, 0, one],
+        Nat::RgH => [r, g, half, one],
+        Nat::Rgb => [r, g, b, one],
+        Nat::Rgba => [r, g, b, a],
+    }
+}
+
+/// half quantisation step of a float-like field around the ideal value c (>= 0 unless H16)
+fn half_ulp(k: K, c: Q) -> Q {
+    // (mantissa bits, minimum normal exponent)
+    let (mb, emin) = match k {
+        H16 => (10, -14),
+        F11 => (6, -14),
+        F10 => (5, -14),
+        _ => unreachable!(),
+    };
+    let a = c.abs();
+    let e = if a.n == 0 { emin } else { floor_log2(a).max(emin) };
+    Q::pow2(e - mb - 1)
+}
+
+/// bound (in units of one code of the m-bit YUV format) on |decoded RGB - clamped input| for
+/// block-constant input. Not documented by the crate; see notes/C12.md (assumption A1).
+fn yuv_bound(f: &Fm, c: usize) -> Q {
+    // half a code in each of Y,U,V through the inverse matrix gives 1.380 / 1.185 / 1.591 codes for
+    // R / G / B; measured maxima on the unchanged code 1.406 / 1.230 / 1.652 (Y416).
+    // Y210 keeps the top 10 bits of 16-bit codes (truncation; 65535/64 != 1023): measured 2.45 / 1.88 / 2.82.
+    match (f.name, c) {
+        ("Y210", 0) => Q::int(3),
+        ("Y210", 1) => Q::new(5, 2),
+        ("Y210", _) => Q::new(7, 2),
+        (_, 0) | (_, 1) => Q::new(3, 2),
+        _ => Q::int(2),
+    }
+}
+
+fn dec_f32_q(bits: u32) -> FC {
+    classify_f32(bits)
+}
+
+struct Oracle {
+    msgs: Vec<String>,
+}
+impl Oracle {
+    fn say(&mut self, s: String) {
+        if self.msgs.len() < 6 {
+            self.msgs.push(s);
+        }
+    }
+}
+
+fn vshow(v: V) -> String {
+    match v {
+        V::I(x, n) => format!("{x}/u{n}"),
+        V::F(b) => format!("f32:{b:08x}"),
+    }
+}
+
+/// nearest clause for one stored channel of one pixel; `dec` = decoded binary32 bits
+fn check_nearest(o: &mut Oracle, f: &Fm, c: usize, k: K, v: V, dec: u32, at: usize, e9sc: Option<Q>, int_line: bool) {
+    let cls = v.class();
+    if cls == FC::Nan {
+        // NaN has no clamped real value: the property demands nothing (notes/C12.md, observation O1)
+        return;
+    }
+    let d = dec_f32_q(dec);
+    let cname = ["R", "G", "B", "A"][c];
+    let fail = |o: &mut Oracle, what: String| {
+        let tag = match (k, cls) {
+            (F11 | F10, FC::Fin(q)) if q.n > 0 && q.lt(Q::pow2(-14)) => "subnormal",
+            _ => "nearest",
+        };
+        o.say(format!("{tag}: {} pixel {at} channel {cname} input {} decoded f32:{dec:08x}: {what}", f.name, vshow(v)));
+    };
+    // tolerance for arbitrary f32 input: 2^-12 of a step; none for integer input
+    let slack = |step: Q| if int_line { Q::int(0) } else { step.mul(tol_steps(k)) };
+    // representation error of the decoded binary32 itself (value in [-2,2]): 2^-24
+    let rep = Q::pow2(-24);
+    match k {
+        U(_) | S(_) => {
+            let l = Q::int(levels(k));
+            let want = clamp01(cls);
+            let FC::Fin(dq) = d else {
+                return fail(o, format!("expected within 1/(2*{}) of {}", l.n, want.show()));
+            };
+            let half = Q::new(1, 2 * l.n);
+            let bound = half.add(slack(Q::new(1, l.n))).add(rep);
+            if !dq.sub(want).abs().le(bound) {
+                fail(o, format!("|{} - {}| > half step 1/{}", dq.show(), want.show(), 2 * l.n));
+            }
+        }
+        Xr => {
+            // range [-384/510, 639/510]; NaN -> 0
+            let want = match cls {
+                FC::Nan | FC::Tiny(_) => Q::int(0),
+                FC::NInf => Q::new(-384, 510),
+                FC::PInf => Q::new(639, 510),
+                FC::Huge(neg) => {
+                    if neg {
+                        Q::new(-384, 510)
+                    } else {
+                        Q::new(639, 510)
+                    }
+                }
+                FC::Fin(q) => {
+                    if q.lt(Q::new(-384, 510)) {
+                        Q::new(-384, 510)
+                    } else if Q::new(639, 510).lt(q) {
+                        Q::new(639, 510)
+                    } else {
+                        q
+                    }
+                }
+            };
+            let FC::Fin(dq) = d else {
+                return fail(o, "not finite".into());
+            };
+            let bound = Q::new(1, 1020).add(slack(Q::new(1, 510))).add(rep);
+            if !dq.sub(want).abs().le(bound) {
+                fail(o, format!("|{} - {}| > half step 1/1020", dq.show(), want.show()));
+            }
+        }
+        H16 | F11 | F10 => {
+            let signed = k == H16;
+            match cls {
+                FC::Nan => {
+                    if d != FC::Nan {
+                        fail(o, "NaN input must stay NaN in a float field".into());
+                    }
+                }
+                FC::PInf => {
+                    if d != FC::PInf {
+                        fail(o, "+Inf must stay +Inf".into());
+                    }
+                }
+                FC::NInf => {
+                    let ok = if signed { d == FC::NInf } else { d == FC::Fin(Q::int(0)) };
+                    if !ok {
+                        fail(o, "-Inf must be -Inf (signed) or 0 (unsigned field)".into());
+                    }
+                }
+                FC::Tiny(_) => {
+                    if d != FC::Fin(Q::int(0)) {
+                        fail(o, "|x| < 2^-40 must encode to zero".into());
+                    }
+                }
+                FC::Huge(_) => {} // beyond the finite range of the field: not claimed (notes, limits)
+                FC::Fin(q) => {
+                    let maxf = match k {
+                        H16 => Q::int(65504),
+                        F11 => Q::int(65024),
+                        _ => Q::int(64512),
+                    };
+                    if maxf.lt(q.abs()) {
+                        return; // beyond the finite range: not claimed
+                    }
+                    let want = if !signed && q.n < 0 { Q::int(0) } else { q };
+                    let FC::Fin(dq) = d else {
+                        // rounding up to infinity is legitimate only above max finite; not here
+                        return fail(o, "finite in-range input decoded non-finite".into());
+                    };
+                    // integer input reaches the field through binary32 (double rounding): tie tolerance
+                    let hu = half_ulp(k, want);
+                    let hu = if int_line { hu.add(hu.mul(Q::pow2(-11))) } else { hu };
+                    if !dq.sub(want).abs().le(hu) {
+                        fail(o, format!("|{} - {}| > half ulp {}", dq.show(), want.show(), hu.show()));
+                    }
+                }
+            }
+        }
+        E9 => {
+            let want = e9_clamp(cls);
+            let FC::Fin(dq) = d else {
+                return fail(o, "not finite".into());
+            };
+            match e9sc {
+                None => {
+                    if dq.n != 0 {
+                        fail(o, "all-zero pixel must decode to 0".into());
+                    }
+                }
+                Some(sc) => {
+                    // step = 1/sc
+                    let step = Q::new(sc.d, sc.n);
+                    let bound = step.mul(Q::new(1, 2)).add(step.mul(Q::pow2(-12)));
+                    if !dq.sub(want).abs().le(bound) {
+                        fail(o, format!("|{} - {}| > half step {}", dq.show(), want.show(), step.mul(Q::new(1, 2)).show()));
+                    }
+                }
+            }
+        }
+        F32 | No => {}
+    }
+}
+
+fn rd(buf: &[u8], i: usize, p: Prec) -> u32 {
+    match p {
+        Prec::U8 => buf[i] as u32,
+        Prec::U16 => u16::from_ne_bytes([buf[2 * i], buf[2 * i + 1]]) as u32,
+        Prec::F32 => u32::from_ne_bytes([buf[4 * i], buf[4 * i + 1], buf[4 * i + 2], buf[4 * i + 3]]),
+    }
+}
+
+fn block_constant(f: &Fm, img: &Img, x: usize, y: usize) -> bool {
+    let at = |x: usize, y: usize| img.px[y.min(img.h - 1) * img.w + x.min(img.w - 1)];
+    match f.cls {
+        Rgbg | SubYuv(_) => {
+            let x0 = x & !1;
+            x0 + 1 >= img.w || at(x0, y)[..3] == at(x0 + 1, y)[..3]
+        }
+        Bi(_) => {
+            let (x0, y0) = (x & !1, y & !1);
+            let a = at(x0, y0);
+            a[..3] == at(x0 + 1, y0)[..3] && a[..3] == at(x0, y0 + 1)[..3] && a[..3] == at(x0 + 1, y0 + 1)[..3]
+        }
+        _ => true,
+    }
+}
+
+fn run_oracle(o: &mut Oracle, f: &Fm, img: &Img, p: Prec, bytes: &[u8], int_line: bool) {
+    let n = img.w * img.h;
+    let stored = f.stored();
+    // exactness clause
+    if f.exact_for(p) {
+        match decode_rgba(f, bytes, img.w, img.h, p) {
+            Err(e) => o.say(format!("decode failed: {e}")),
+            Ok(dec) => {
+                for i in 0..n {
+                    let want = expect_same(f.nat, img.px[i], p);
+                    let got = [rd(&dec, 4 * i, p), rd(&dec, 4 * i + 1, p), rd(&dec, 4 * i + 2, p), rd(&dec, 4 * i + 3, p)];
+                    if want != got {
+                        o.say(format!(
+                            "exact: {} pixel {i} input [{},{},{},{}] expected {:x?} decoded {:x?}",
+                            f.name,
+                            vshow(img.px[i][0]),
+                            vshow(img.px[i][1]),
+                            vshow(img.px[i][2]),
+                            vshow(img.px[i][3]),
+                            want,
+                            got
+                        ));
+                        break;
+                    }
+                }
+            }
+        }
+        return;
+    }
+    // nearest clause (decode at F32: identifies every stored code of <= 16 bits)
+    let dec = match decode_rgba(f, bytes, img.w, img.h, Prec::F32) {
+        Err(e) => {
+            o.say(format!("decode failed: {e}"));
+            return;
+        }
+        Ok(d) => d,
+    };
+    for i in 0..n {
+        let px = img.px[i];
+        let (x, y) = (i % img.w, i / img.w);
+        if f.is_yuv() {
+            // wider bound, block-constant input only
+            if !block_constant(f, img, x, y) {
+                continue;
+            }
+            let m = match f.cls {
+                Yuv(m) | SubYuv(m) | Bi(m) => m,
+                _ => unreachable!(),
+            };
+            let cl = [px[0].class(), px[1].class(), px[2].class()];
+            if cl.contains(&FC::Nan) {
+                continue;
+            }
+            // the matrix is only meaningful for input in [0,1]; outside it the property's
+            // "clamped input" is still the reference
+            for c in 0..3 {
+                let want = clamp01(cl[c]);
+                let d = dec_f32_q(rd(&dec, 4 * i + c, Prec::F32));
+                let bound = yuv_bound(f, c).mul(Q::new(1, (1i128 << m) - 1)).add(Q::pow2(-24));
+                let ok = match d {
+                    FC::Fin(dq) => dq.sub(want).abs().le(bound),
+                    _ => false,
+                };
+                if std::env::var("C12_STAT").is_ok() {
+                    if let (FC::Fin(dq), true) = (d, cl.iter().all(|c| matches!(c, FC::Fin(q) if q.n >= 0 && q.le(Q::int(1))))) {
+                        let e = dq.sub(want).abs().mul(Q::int((1i128 << m) - 1));
+                        eprintln!("STAT {} {} {}", f.name, c, (e.n * 1000 / e.d) as f64 / 1000.0);
+                    }
+                }
+                if !ok {
+                    let inr = cl.iter().all(|c| matches!(c, FC::Fin(q) if q.n >= 0 && q.le(Q::int(1))));
+                    o.say(format!(
+                        "{}: {} pixel {i} channel {} input [{},{},{}] decoded f32:{:08x}: more than {} codes from {}",
+                        if inr { "yuv-bound" } else { "yuv-range" },
+                        f.name,
+                        ["R", "G", "B"][c],
+                        vshow(px[0]),
+                        vshow(px[1]),
+                        vshow(px[2]),
+                        rd(&dec, 4 * i + c, Prec::F32),
+                        yuv_bound(f, c).show(),
+                        want.show()
+                    ));
+                }
+            }
+            if f.k[3] != No {
+                check_nearest(o, f, 3, f.k[3], px[3], rd(&dec, 4 * i + 3, Prec::F32), i, None, int_line);
+            }
+            continue;
+        }
+        if f.cls == Rgbg {
+            // G per pixel; R and B are the pair's mean
+            check_nearest(o, f, 1, U(8), px[1], rd(&dec, 4 * i + 1, Prec::F32), i, None, int_line);
+            let x0 = x & !1;
+            let other = if x0 + 1 < img.w { img.px[y * img.w + (x0 + 1 - (x - x0)) .max(x0)] } else { px };
+            let other = if x0 + 1 < img.w { img.px[y * img.w + if x == x0 { x0 + 1 } else { x0 }] } else { other };
+            for c in [0usize, 2] {
+                if let Some(m) = clamp_sum_half(FC::Fin(clamp01(px[c].class())), FC::Fin(clamp01(other[c].class()))) {
+                    if let FC::Fin(dq) = dec_f32_q(rd(&dec, 4 * i + c, Prec::F32)) {
+                        // the mean of two values has exact ties; either neighbour is within half a step
+                        let bound = Q::new(1, 510).add(Q::pow2(-24)).add(if int_line { Q::int(0) } else { Q::new(1, 255).mul(Q::pow2(-12)) });
+                        // out-of-range inputs: the code averages before clamping; only claim for in-range pairs
+                        let inr = |v: V| matches!(v.class(), FC::Fin(q) if q.n >= 0 && q.le(Q::int(1)));
+                        if inr(px[c]) && inr(other[c]) && !dq.sub(m).abs().le(bound) {
+                            o.say(format!(
+                                "nearest: {} pixel {i} channel {} pair mean {} decoded {}: more than half a step",
+                                f.name,
+                                ["R", "G", "B"][c],
+                                m.show(),
+                                dq.show()
+                            ));
+                        }
+                    }
+                }
+            }
+            continue;
+        }
+        let e9sc = if f.k[0] == E9 {
+            let cs = [e9_clamp(px[0].class()), e9_clamp(px[1].class()), e9_clamp(px[2].class())];
+            let mut mx = cs[0];
+            for c in &cs[1..] {
+                if mx.lt(*c) {
+                    mx = *c;
+                }
+            }
+            e9_scale(mx, true)
+        } else {
+            None
+        };
+        for c in 0..4 {
+            if stored[c] {
+                check_nearest(o, f, c, f.k[c], px[c], rd(&dec, 4 * i + c, Prec::F32), i, e9sc, int_line);
+            }
+        }
+    }
+}
+
+// ------------------------------------------------------------------------------------------
+// one case
+
+fn loose_mask(f: &Fm, img: &Img, int_line: bool) -> Vec<bool> {
+    // per encoded byte: true = zero before hashing
+    let (w, h) = (img.w, img.h);
+    let mut mask = vec![false; f.enc_len(w, h)];
+    let pl: Vec<bool> = img.px.iter().map(|p| pixel_loose(f, *p, int_line)).collect();
+    let at = |x: usize, y: usize| y * w + x.min(w - 1);
+    match f.cls {
+        Plain | Yuv(_) => {
+            for i in 0..w * h {
+                if pl[i] {
+                    for b in 0..f.unit {
+                        mask[i * f.unit + b] = true;
+                    }
+                }
+            }
+        }
+        Rgbg | SubYuv(_) => {
+            let bw = (w + 1) / 2;
+            for y in 0..h {
+                for bx in 0..bw {
+                    let (i0, i1) = (at(2 * bx, y), at(2 * bx + 1, y));
+                    let mut l = pl[i0] || pl[i1];
+                    if f.cls == Rgbg {
+                        l = l || rgbg_pair_loose(img.px[i0], img.px[i1]);
+                    }
+                    if l {
+                        for b in 0..f.unit {
+                            mask[(y * bw + bx) * f.unit + b] = true;
+                        }
+                    }
+                }
+            }
+        }
+        R1 => {
+            let bw = (w + 7) / 8;
+            for y in 0..h {
+                for bx in 0..bw {
+                    if (0..8).any(|j| pl[at(8 * bx + j, y)]) {
+                        mask[y * bw + bx] = true;
+                    }
+                }
+            }
+        }
+        Bi(_) => {
+            let p1 = w * h * f.unit;
+            for by in 0..h / 2 {
+                for bx in 0..w / 2 {
+                    let idx = [at(2 * bx, 2 * by), at(2 * bx + 1, 2 * by), at(2 * bx, 2 * by + 1), at(2 * bx + 1, 2 * by + 1)];
+                    if idx.iter().any(|i| pl[*i]) {
+                        for i in idx {
+                            for b in 0..f.unit {
+                                mask[i * f.unit + b] = true;
+                            }
+                        }
+                        for b in 0..2 * f.unit {
+                            mask[p1 + (by * (w / 2) + bx) * 2 * f.unit + b] = true;
+                        }
+                    }
+                }
+            }
+        }
+    }
+    mask
+}
+
+fn run_image(f: &Fm, fam: Fam, img: &Img, precs: &[Prec], p_logical: Prec, int_line: bool) -> (String, Vec<String>) {
+    let mut o = Oracle { msgs: vec![] };
+    let mut first: Option<Result<Vec<u8>, String>> = None;
+    let mut first_desc = String::new();
+    for (chs, ch) in carriers(fam) {
+        for &p in precs {
+            for (pad, off) in [(0usize, 0usize), (5, 0), (0, 1), (12, 3)] {
+                for par in [false, true] {
+                    // keep the cross product affordable: the unaligned variants only sequentially
+                    if off != 0 && par {
+                        continue;
+                    }
+                    let Some(r) = encode_one(f, img, chs, ch, p, pad, off, par) else {
+                        continue;
+                    };
+                    let desc = format!("{chs:?}/{p:?} pad={pad} off={off} par={par}");
+                    match &first {
+                        None => {
+                            first = Some(r);
+                            first_desc = desc;
+                        }
+                        Some(fr) => {
+                            if *fr != r {
+                                let at = match (fr, &r) {
+                                    (Ok(a), Ok(b)) => {
+                                        let i = a.iter().zip(b.iter()).position(|(x, y)| x != y);
+                                        format!("len {} vs {}, first difference at byte {:?}", a.len(), b.len(), i)
+                                    }
+                                    (a, b) => format!("{:?} vs {:?}", a.as_ref().map(|v| v.len()), b.as_ref().map(|v| v.len())),
+                                };
+                                o.say(format!("carrier: {} encoded bytes differ between [{first_desc}] and [{desc}]: {at}", f.name));
+                            }
+                        }
+                    }
+                }
+            }
+        }
+    }
+    let Some(first) = first else {
+        return ("bad-case".into(), vec![]);
+    };
+    match first {
+        Err(e) => (format!("err {e}"), o.msgs),
+        Ok(bytes) => {
+            if bytes.len() != f.enc_len(img.w, img.h) {
+                o.say(format!("length: {} encoded {} bytes, layout says {}", f.name, bytes.len(), f.enc_len(img.w, img.h)));
+                return (format!("ok {} -", bytes.len()), o.msgs);
+            }
+            run_oracle(&mut o, f, img, p_logical, &bytes, int_line);
+            let mask = loose_mask(f, img, int_line);
+            let mut hb = bytes.clone();
+            for (b, m) in hb.iter_mut().zip(mask.iter()) {
+                if *m {
+                    *b = 0;
+                }
+            }
+            (format!("ok {} {:016x}", bytes.len(), fnv(&hb)), o.msgs)
+        }
+    }
+}
+
+fn logical_px(fam: Fam, v: [V; 4], one: V, zero: V) -> [V; 4] {
+    match fam {
+        Fam::G => [v[0], v[0], v[0], one],
+        Fam::A => [zero, zero, zero, v[3]],
+        Fam::Rgb => [v[0], v[1], v[2], one],
+        Fam::Rgba => v,
+    }
+}
+
+pub fn run(line: &str) -> Option<(String, Vec<String>)> {
+    let t = toks(line);
+    match *t.first()? {
+        "sup" => {
+            let f = find(t.get(1)?)?;
+            let s = f.fmt.encoding_support()?;
+            let d = s.dithering();
+            let sh = s.split_height().map(|x| x.get() as u32).unwrap_or(0);
+            let sm = s.size_multiple().map(|(a, b)| (a.get(), b.get())).unwrap_or((1, 1));
+            Some((format!("sup dc={} da={} sh={} sm={}x{} local={}", d.color() as u8, d.alpha() as u8, sh, sm.0, sm.1, s.local_dithering() as u8), vec![]))
+        }
+        "int" => {
+            let f = find(t.get(1)?)?;
+            let bits = p_u32(t.get(2)?)?;
+            if bits != 8 && bits != 16 {
+                return None;
+            }
+            let fam = fam_of(t.get(3)?)?;
+            let pat = p_u32(t.get(4)?)?;
+            let w = p_usize(t.get(5)?)?;
+            let h = p_usize(t.get(6)?)?;
+            let start = p_u64(t.get(7)?)?;
+            if pat > 3 || w == 0 || h == 0 || w * h > 1 << 20 {
+                return None;
+            }
+            let bi = matches!(f.cls, Bi(_));
+            let one = V::I((1 << bits) - 1, bits);
+            let zero = V::I(0, bits);
+            let mut px = Vec::with_capacity(w * h);
+            for y in 0..h {
+                for x in 0..w {
+                    let k = pix_index(pat, bi, w, x, y, start);
+                    let v = [0, 1, 2, 3].map(|c| V::I(int_chan(pat, bits, c, k), bits));
+                    px.push(logical_px(fam, v, one, zero));
+                }
+            }
+            let img = Img { w, h, px };
+            let (precs, pl): (&[Prec], Prec) = if bits == 8 { (&[Prec::U8, Prec::U16, Prec::F32], Prec::U8) } else { (&[Prec::U16, Prec::F32], Prec::U16) };
+            Some(run_image(f, fam, &img, precs, pl, true))
+        }
+        kind @ ("f32" | "f32s" | "f32x") => {
+            let f = find(t.get(1)?)?;
+            let fam = fam_of(t.get(2)?)?;
+            let w = p_usize(t.get(3)?)?;
+            let h = p_usize(t.get(4)?)?;
+            let vals: Option<Vec<u32>> = t.get(5)?.split(',').map(|s| u32::from_str_radix(s, 16).ok()).collect();
+            let vals = vals?;
+            if vals.is_empty() || w == 0 || h == 0 || w * h > 1 << 20 {
+                return None;
+            }
+            // `f32`: every value 0 or in [2^-14, 1]; `f32s`: every value in [0, 1]; `f32x`: anything
+            if kind != "f32x" && vals.iter().any(|v| *v > 0x3F80_0000) {
+                return None;
+            }
+            if kind == "f32" && vals.iter().any(|v| *v != 0 && *v < 0x3880_0000) {
+                return None;
+            }
+            let nch = match fam {
+                Fam::G | Fam::A => 1,
+                Fam::Rgb => 3,
+                Fam::Rgba => 4,
+            };
+            let one = V::F(0x3F80_0000);
+            let zero = V::F(0);
+            let mut px = Vec::with_capacity(w * h);
+            for i in 0..w * h {
+                // block-constant on the 2x1 / 2x2 blocked formats (the wider-bound clause is per block)
+                let (x, y) = (i % w, i / w);
+                let i = match f.cls {
+                    Rgbg | SubYuv(_) => y * ((w + 1) / 2) + x / 2,
+                    Bi(_) => (y / 2) * (w / 2) + x / 2,
+                    _ => i,
+                };
+                let g = |j: usize| V::F(vals[(i * nch + j) % vals.len()]);
+                let v = match fam {
+                    Fam::G => [g(0), zero, zero, one],
+                    Fam::A => [zero, zero, zero, g(0)],
+                    Fam::Rgb => [g(0), g(1), g(2), one],
+                    Fam::Rgba => [g(0), g(1), g(2), g(3)],
+                };
+                px.push(logical_px(fam, v, one, zero));
+            }
+            let img = Img { w, h, px };
+            Some(run_image(f, fam, &img, &[Prec::F32], Prec::F32, false))
+        }
+        _ => None,
+    }
+}
+
+// ------------------------------------------------------------------------------------------
+// generator
+
+fn f32_kind(v: &[u32]) -> &'static str {
+    if v.iter().any(|x| *x > 0x3F80_0000) {
+        "f32x"
+    } else if v.iter().any(|x| *x != 0 && *x < 0x3880_0000) {
+        "f32s"
+    } else {
+        "f32"
+    }
+}
+fn hexlist(v: &[u32]) -> String {
+    v.iter().map(|x| format!("{x:08x}")).collect::<Vec<_>>().join(",")
+}
+
+/// interesting binary32 inputs for a field with `l` levels (grid points, midpoints +-1 ulp, ...)
+fn f32_grid(l: u32, rng: &mut Rng, n: usize) -> Vec<u32> {
+    let mut v = vec![];
+    for _ in 0..n {
+        let k = rng.below(l as u64 + 1) as u128;
+        match rng.below(4) {
+            0 => v.push(nearest_f32(k, l as u128)),
+            1 => {
+                // midpoint (2k+1)/(2l), +-1 ulp  (near-tie probes: oracle only)
+                if k < l as u128 {
+                    let m = nearest_f32(2 * k + 1, 2 * l as u128);
+                    v.push(m.wrapping_add(rng.below(3) as u32).wrapping_sub(1));
+                }
+            }
+            2 => v.push(nearest_f32(k, l as u128).wrapping_add(rng.below(5) as u32).wrapping_sub(2).min(0x3F80_0000)),
+            _ => v.push(nearest_f32(rng.below(1 << 24) as u128, 1 << 24)),
+        }
+    }
+    v
+}
+
+/// in [0,1], zero or at least 2^-14
+pub const SPEC_IN: [u32; 12] = [
+    0x0000_0000, 0x3F80_0000, 0x3F7F_FFFF, 0x3F00_0000, 0x3EFF_FFFF, 0x3F00_0001, 0x3DCC_CCCD, 0x3880_0000, 0x3880_0001,
+    0x3B80_8081, 0x3C00_0000, 0x3E80_0000,
+];
+/// positive, below 2^-14 (binary32 subnormals, binary16 / 11-bit / 10-bit float subnormal range)
+pub const SPEC_SMALL: [u32; 14] = [
+    0x0000_0001, 0x007F_FFFF, 0x0080_0000, 0x3380_0000, 0x3300_0000, 0x3300_0001, 0x387F_C000, 0x3580_0000, 0x35F3_3333,
+    0x3639_999A, 0x3400_0001, 0x37FF_E000, 0x3600_0000, 0x3640_0000,
+];
+/// outside [0,1], -0, huge
+pub const SPEC_OUT: [u32; 14] = [
+    0x8000_0000, 0x8000_0001, 0x3F80_0001, 0x4000_0000, 0x4120_0000, 0xBF80_0000, 0xBDCC_CCCD, 0x7F7F_FFFF, 0xFF7F_FFFF,
+    0x477F_E000, 0x42C8_0000, 0x3FA0_0000, 0xBE80_0000, 0x3F00_0000,
+];
+pub const NONFINITE: [u32; 4] = [0x7F80_0000, 0xFF80_0000, 0x7FC0_0000, 0xFFC0_0001];
+
+fn geoms(f: &Fm, thorough: bool) -> Vec<(usize, usize)> {
+    // widths across the 512-pixel and 4096-byte chunk boundaries; several rows so that rows of a
+    // padded view straddle chunk boundaries
+    let bi = matches!(f.cls, Bi(_));
+    let mut g: Vec<(usize, usize)> = if bi {
+        vec![(510, 2), (512, 2), (514, 2), (1022, 2), (1026, 2), (4098, 2), (6, 6), (342, 4)]
+    } else {
+        vec![(511, 1), (512, 1), (513, 1), (1023, 1), (1025, 1), (4097, 1), (5, 3), (341, 3), (171, 7)]
+    };
+    if thorough {
+        if bi {
+            g.extend([(2, 2), (2, 514), (2050, 2), (686, 6)]);
+        } else {
+            g.extend([(1, 1), (1, 513), (7, 75), (2047, 1), (2049, 2), (8193, 1), (683, 3)]);
+        }
+    }
+    g
+}
+
+pub fn gen(seed: u64, thorough: bool) -> Vec<String> {
+    let mut rng = Rng::new(seed);
+    let mut out = vec![];
+    for f in FORMATS.iter() {
+        out.push(format!("sup {}", f.name));
+    }
+    let fams = [Fam::G, Fam::A, Fam::Rgb, Fam::Rgba];
+    let head = std::mem::take(&mut out);
+    let mut per_format: Vec<Vec<String>> = vec![];
+    for f in FORMATS.iter() {
+        let mut out: Vec<String> = vec![];
+        let blocky = f.cls != Plain && !matches!(f.cls, Yuv(_));
+        // ---- 8-bit: every channel value, every colour format, every geometry
+        for (gi, &(w, h)) in geoms(f, thorough).iter().enumerate() {
+            for fam in fams {
+                let pats: &[u32] = if blocky { &[0, 1, 3] } else { &[0] };
+                for &pat in pats {
+                    // start so that consecutive geometries continue the ramp; every geometry >= 256 px
+                    // covers all values on its own except the tiny ones
+                    let start = (gi * 37) as u64;
+                    out.push(format!("int {} 8 {} {} {} {} {}", f.name, fam_name(fam), pat, w, h, start));
+                }
+            }
+        }
+        // ---- 8-bit pairs (channel interaction: shared exponent, YUV matrix): 65536 pixels
+        if f.k[0] == E9 || f.is_yuv() {
+            let (w, h) = if matches!(f.cls, Bi(_)) { (512, 2) } else { (1024, 1) };
+            let step = if thorough { 1 } else { 4 };
+            for s in (0..64).step_by(step) {
+                out.push(format!("int {} 8 rgb 2 {} {} {}", f.name, w, h, s * 1024));
+                if blocky {
+                    out.push(format!("int {} 8 rgb 1 {} {} {}", f.name, w, h, s * 1024 + 7));
+                }
+            }
+        }
+        // ---- 16-bit: every channel value once (quick: one geometry, 513-pixel rows)
+        let (w, h) = if matches!(f.cls, Bi(_)) { (514, 2) } else { (513, 2) };
+        let per = (w * h) as u64;
+        let lines = (65536 + per - 1) / per;
+        for i in 0..lines {
+            out.push(format!("int {} 16 rgba 0 {} {} {}", f.name, w, h, i * per));
+            if blocky {
+                // block-constant ramps: the wider-bound clause is checked on these
+                out.push(format!("int {} 16 rgb 1 {} {} {}", f.name, w, h, 2 * i * per));
+            }
+            if thorough || i % 16 == 3 {
+                for fam in [Fam::G, Fam::A, Fam::Rgb] {
+                    out.push(format!("int {} 16 {} {} {} {} {}", f.name, fam_name(fam), if blocky { 3 } else { 0 }, w, h, i * per + 11));
+                }
+            }
+        }
+        if thorough {
+            for &(w, h) in geoms(f, false).iter().take(6) {
+                let per = (w * h) as u64;
+                for i in 0..(65536 + per - 1) / per {
+                    for fam in [Fam::A, Fam::Rgb] {
+                        out.push(format!("int {} 16 {} {} {} {} {}", f.name, fam_name(fam), if blocky { 3 } else { 0 }, w, h, i * per));
+                    }
+                }
+            }
+        }
+        // ---- f32
+        let lv: Vec<u32> = {
+            let mut v: Vec<u32> = f.k.iter().filter_map(|k| match k { U(b) => Some((1u32 << b) - 1), S(b) => Some((1u32 << b) - 2), Xr => Some(510), _ => None }).collect();
+            if f.is_yuv() {
+                v.push((1u32 << f.yuv_bits()) - 1);
+            }
+            if v.is_empty() {
+                v.push(255);
+                v.push(65535);
+            }
+            v.sort();
+            v.dedup();
+            v
+        };
+        let (w, h) = if matches!(f.cls, Bi(_)) { (514, 2) } else { (513, 1) };
+        let reps = if thorough { 24 } else { 3 };
+        for fam in fams {
+            // finite specials: in range, subnormal range, out of range / -0 / huge
+            out.push(format!("f32 {} {} {} {} {}", f.name, fam_name(fam), w, h, hexlist(&SPEC_IN)));
+            out.push(format!("f32s {} {} {} {} {}", f.name, fam_name(fam), w, h, hexlist(&SPEC_SMALL)));
+            out.push(format!("f32x {} {} {} {} {}", f.name, fam_name(fam), w, h, hexlist(&SPEC_OUT)));
+            for r in 0..reps {
+                let l = lv[r % lv.len()];
+                let vals = f32_grid(l, &mut rng, 61);
+                out.push(format!("{} {} {} {} {} {}", f32_kind(&vals), f.name, fam_name(fam), w, h, hexlist(&vals)));
+            }
+            // non-finite input, alone on small lines
+            for nf in NONFINITE {
+                out.push(format!("f32x {} {} {} {} {}", f.name, fam_name(fam), if matches!(f.cls, Bi(_)) { 2 } else { 3 }, if matches!(f.cls, Bi(_)) { 2 } else { 1 }, hexlist(&[nf, 0x3F00_0000, nf, 0x3E80_0000, 0x3F40_0000])));
+            }
+        }
+        // one odd size for the bi-planar formats (InvalidSize)
+        if matches!(f.cls, Bi(_)) {
+            out.push(format!("int {} 8 rgb 0 3 2 0", f.name));
+            out.push(format!("int {} 8 rgb 0 2 3 0", f.name));
+        }
+        per_format.push(out);
+    }
+    // round-robin over the formats so that contiguous chunks of the stream cost about the same
+    let mut out = head;
+    let longest = per_format.iter().map(|v| v.len()).max().unwrap_or(0);
+    for i in 0..longest {
+        for v in per_format.iter() {
+            if let Some(l) = v.get(i) {
+                out.push(l.clone());
+            }
+        }
+    }
+    out
 }
